@@ -26,6 +26,9 @@ class ContractMixin:
         c = self.contracts.by_target.get(fi.qualname)
         if c is None:
             return None
+        if fi.qualname in self.config.get('inline', []) and self.cur_unit is not fi:
+            # the unit asks for the body of this callee (the real code) instead of its contract
+            return None
         if self.cur_unit is fi and (st is None or st.depth == 1 and False):
             return c
         return c
@@ -293,6 +296,21 @@ class ContractMixin:
                 s2.assume(goal)
                 if dbg0:
                     print('   after requires', label, self.feasible(s2))
+            uc_ = self.unit_contract
+            if uc_ is not None and uc_ is not c:
+                for cr in uc_.calls('call_requires'):
+                    if cr.args[0].value == c.target:
+                        # an obligation of THIS unit at each of its calls of the callee (stated over the unit's own parameters, in the
+                        # state just before the call): anchored at the call, not at a line number
+                        e5 = dict(self.unit_env)
+                        e5['__old__'] = self.unit_pre
+                        for k_, v_ in loc.items():      # the callee's parameters, unless the unit has one of the same name
+                            e5.setdefault(k_, v_)
+                        goal = self.spec_bool(s2, self.sev(s2, cr.args[2], e5, uc_.module))
+                        ob_ = self.add_obligation('pre', s2, goal, cr.args[1].value, node, detail=ast.unparse(cr.args[2]))
+                        ob_.replay = {k.args[0].value: k.args[1].value for k in uc_.calls('replay')}.get(cr.args[1].value)
+                        self.call_requires_hit.add(cr.args[1].value)
+                        s2.assume(goal)
             pre = s2.heap_snapshot()
             pre_len = len(pre.pc)
             env['__old__'] = pre
@@ -357,6 +375,18 @@ class ContractMixin:
                     s3.assume(clause)
                     if dbg:
                         print('   after ensures', label, self.feasible(s3))
+                uc_ = self.unit_contract
+                if uc_ is not None and uc_ is not c:
+                    for cf in uc_.calls('call_fact'):
+                        if cf.args[0].value == c.target:
+                            # an ASSUMED fact about what this callee hands back at this unit's call sites (stated over the unit's own
+                            # parameters and `ret`); listed in the trusted base of the unit
+                            e5 = dict(self.unit_env)
+                            e5['ret'] = res
+                            e5['__old__'] = self.unit_pre
+                            s3.assume(self.spec_bool(s3, self.sev(s3, cf.args[2], e5, uc_.module)))
+                            self.assumptions_used.add(f'assumed at the calls of {c.target} in {uc_.target}: {cf.args[1].value}: '
+                                                      + ast.unparse(cf.args[2]))
                 s3.pc.extend(pre.pc[pre_len:])
                 if self.feasible(s3):
                     outs.append(Out('ok', s3, res))
@@ -558,6 +588,11 @@ class ContractMixin:
         else:
             outs = self.inline(st, fv, args, None)
         self.stats['paths'] += len(outs)
+        for cr in c.calls('call_requires'):
+            if cr.args[1].value not in self.call_requires_hit:
+                # vacuity guard: the call the obligation is anchored at was never reached
+                self.add_obligation('post', pre, FALSE, f'{cr.args[1].value}::call_is_reached', None,
+                                    detail=f'no explored path calls {cr.args[0].value}')
         says_never = any(isinstance(e.args[-1], ast.Constant) and e.args[-1].value is False for e in c.calls('ensures'))
         if c.calls('ensures') and not c.has('never_returns') and not says_never and not any(o.kind == 'ok' for o in outs):
             # vacuity guard: postconditions were stated but no path returns normally -- they would all hold for nothing
